@@ -548,3 +548,164 @@ Proof.
   split; [rewrite nth_error_upd, Nat.eqb_refl, En; reflexivity|]. split; [|split; reflexivity].
   intros k Hk. rewrite nth_error_upd. destruct (Nat.eqb (Z.to_nat s) k) eqn:E; [apply Nat.eqb_eq in E; congruence|reflexivity].
 Qed.
+
+(* ------------------------------------------------------------------ refinement for the world layer *)
+(* the operation of Model/Copy.v a world operation performs on the embedded state (None: the embedded state is untouched) *)
+Definition weffect (w : world) (o : wop) : option op :=
+  match o with
+  | Inner (Copy _ _) => None
+  | Inner (Move s label _ as o') | Inner (Leave s label as o') => if fixed_guard w s label then None else Some o'
+  | Inner (RelMove s label key as o') =>
+      if fixed_guard w s label then None
+      else match xconn_target w s label key with Some idx => Some (Move s label idx) | None => Some o' end
+  | Inner o' => Some o'
+  | PlaceFixed s label ci => if fixed_guard w s label then None else Some (Move s label ci)
+  | Kill s label =>
+      match assoc label (tab_of w s), model_of w s with
+      | Some a, Some m => if negb (memn a (nth m (w_models w) [])) then None else Some (Leave s label)
+      | _, _ => None
+      end
+  | _ => None
+  end.
+
+Definition plain (o : wop) : bool :=
+  match o with WCopy _ _ _ | SForget _ | DelEmpty _ => false | _ => true end.
+
+Lemma inner_case_st w o : w_st (fst (let '(w', _, r) := inner_step w o in (w', r))) = fst (step (w_st w) o).
+Proof. pose proof (inner_step_st w o) as E. destruct (inner_step w o) as [[w' news] r]. exact E. Qed.
+
+Lemma weffect_st w o : plain o = true ->
+  w_st (fst (wstep w o)) = match weffect w o with Some o' => fst (step (w_st w) o') | None => w_st w end.
+Proof.
+  intros Hp. destruct o as [o'|mech src root|s label ci|s label|s ci name v|s|s|s ci key cj]; try discriminate;
+    cbn [wstep weffect].
+  - destruct o'; try reflexivity; try (destruct (fixed_guard w s label); [reflexivity|]);
+      try (destruct (xconn_target w s label key)); apply inner_case_st.
+  - destruct (fixed_guard w s label); [reflexivity|].
+    pose proof (inner_step_st w (Move s label ci)) as E.
+    destruct (inner_step w (Move s label ci)) as [[w' news] r]. cbn [fst] in *.
+    destruct (assoc label (tab_of w s)); exact E.
+  - destruct (assoc label (tab_of w s)) as [a|]; [|reflexivity]. destruct (model_of w s) as [m|]; [|reflexivity].
+    destruct (negb (memn a (nth m (w_models w) []))); [reflexivity|].
+    pose proof (inner_step_st w (Leave s label)) as E.
+    destruct (inner_step w (Leave s label)) as [[w' news] r]. exact E.
+  - destruct (side_of w s) as [sd|]; [|reflexivity]. destruct (ci <? 0); [reflexivity|].
+    destruct (nth_error (s_cells (sd_space sd)) (Z.to_nat ci)); reflexivity.
+  - destruct (side_of w s) as [sd|]; [|reflexivity]. destruct ((ci <? 0) || (cj <? 0) || (key <? HANDMADE)); [reflexivity|].
+    destruct (nth_error (s_cells (sd_space sd)) (Z.to_nat ci)); [|reflexivity].
+    destruct (nth_error (s_cells (sd_space sd)) (Z.to_nat cj)); reflexivity.
+Qed.
+
+(* one plain world operation, seen from side j: its abstract state moves by the abstract machine of Model/Copy.v on the
+   operation actually performed (a refused operation on a FixedAgent, a user attribute, a hand-made connection: not at all;
+   move_relative along a hand-made connection: as the move to its target) *)
+Theorem wstep_refines w o j sd : Inv12 (w_st w) -> plain o = true -> nth_error (st_sides (w_st w)) j = Some sd ->
+  exists sd', nth_error (st_sides (w_st (fst (wstep w o)))) j = Some sd' /\
+    absf (st_heap (w_st (fst (wstep w o)))) sd'
+    = match weffect w o with
+      | Some o' => if touches o' j then fst (astep (absf (st_heap (w_st w)) sd) o') else absf (st_heap (w_st w)) sd
+      | None => absf (st_heap (w_st w)) sd
+      end.
+Proof.
+  intros [I I2] Hp Hj. rewrite (weffect_st w o Hp). destruct (weffect w o) as [o'|].
+  - apply (step_seen_from (w_st w) o' j sd I I2 Hj).
+  - exists sd. split; [exact Hj|reflexivity].
+Qed.
+
+(* copying: the carried registry only allocates *)
+Lemma carry_frame h0 reg : forall hh tab done,
+  frame [] [] [] None hh (fst (fst (carry h0 reg hh tab done))).
+Proof.
+  induction reg as [|a t IH]; intros hh tab done; simpl; [apply frame_refl|].
+  destruct (find_or_create hh tab (a_label (geta h0 a))) as [[hh' a'] tab'] eqn:Ef.
+  destruct (foc_set _ _ _ _ _ _ Ef) as [F _]. eapply frame_trans; [exact F|apply IH].
+Qed.
+
+(* the copy starts in the abstract state of its source - whether the space or the model was copied, whatever travelled in
+   the registry - and no existing side changes *)
+Theorem wcopy_refines w src root sd m :
+  Inv12 (w_st w) -> nth_side (st_sides (w_st w)) src = Some sd -> model_of w src = Some m ->
+  Nat.leb MAX_SIDES (length (st_sides (w_st w))) = false ->
+  let w' := fst (wcopy w src root) in
+  (exists sd2, nth_error (st_sides (w_st w')) (length (st_sides (w_st w))) = Some sd2 /\
+               absf (st_heap (w_st w')) sd2 = absf (st_heap (w_st w)) sd) /\
+  (forall j sdj, nth_error (st_sides (w_st w)) j = Some sdj ->
+     nth_error (st_sides (w_st w')) j = Some sdj /\ absf (st_heap (w_st w')) sdj = absf (st_heap (w_st w)) sdj).
+Proof.
+  intros [I I2] En Em Hm. cbv zeta. unfold wcopy. rewrite En, Em, Hm.
+  pose proof (nth_side_Some _ _ _ En) as En'. pose proof (inv_ok _ I _ _ En') as [W [NG _]].
+  pose proof (copy_absf (st_heap (w_st w)) sd W) as Ea.
+  pose proof (copy_wf (st_heap (w_st w)) sd W NG) as W1.
+  pose proof (fun sd0 W0 => copy_leaves_others (st_heap (w_st w)) sd sd0 W0) as Hothers.
+  unfold copy_heap, copy_side in *.
+  destruct (copy_space (st_heap (w_st w)) sd) as [h1 [sp1 tab1]]. cbn [fst snd sd_space sd_tab] in *.
+  assert (Hext : forall h2 tab2, frame [] [] [] None h1 h2 ->
+            (exists sd2, nth_error (st_sides (w_st w) ++ [{| sd_space := sp1; sd_tab := tab2 |}]) (length (st_sides (w_st w))) = Some sd2 /\
+                         absf h2 sd2 = absf (st_heap (w_st w)) sd) /\
+            (forall j sdj, nth_error (st_sides (w_st w)) j = Some sdj ->
+               nth_error (st_sides (w_st w) ++ [{| sd_space := sp1; sd_tab := tab2 |}]) j = Some sdj /\
+               absf h2 sdj = absf (st_heap (w_st w)) sdj)).
+  { intros h2 tab2 F. split.
+    - exists {| sd_space := sp1; sd_tab := tab2 |}. split; [apply nth_error_last|].
+      rewrite <- Ea. unfold absf. cbn [sd_space layers_of].
+      change (abs_side h2 {| sd_space := sp1; sd_tab := tab2 |}) with (abs_side h2 {| sd_space := sp1; sd_tab := tab1 |}).
+      rewrite (agree_abs _ _ _ W1 (frame_nil_agree _ _ _ W1 F)). reflexivity.
+    - intros j sdj Hj. split; [rewrite nth_error_app1; [exact Hj|apply nth_error_Some; congruence]|].
+      destruct (Hothers sdj (proj1 (inv_ok _ I j sdj Hj))) as [Wj1 Eabs].
+      unfold absf. rewrite (agree_abs _ _ _ Wj1 (frame_nil_agree _ _ _ Wj1 F)), Eabs. reflexivity. }
+  destruct ((root =? 1) || negb (Nat.eqb (length (agents_of (st_heap (w_st w)) (s_cells (sd_space sd)))) O)).
+  - rewrite carry_registry_eq.
+    pose proof (carry_frame (st_heap (w_st w)) (nth m (w_models w) []) h1 tab1 []) as F.
+    destruct (carry (st_heap (w_st w)) (nth m (w_models w) []) h1 tab1 []) as [[h2 tab2] newreg].
+    cbn [fst w_st st_heap st_sides] in *. apply (Hext h2 tab2 F).
+  - cbn [fst w_st st_heap st_sides]. apply (Hext h1 tab1 (frame_refl _ _ _ _ _)).
+Qed.
+
+(* the operations of Model/Copy.v actually performed along a world history *)
+Fixpoint weffects (w : world) (ops : list wop) : list op :=
+  match ops with
+  | [] => []
+  | o :: t => (match (if plain o then weffect w o else None) with Some o' => [o'] | None => [] end)
+              ++ weffects (fst (wstep w o)) t
+  end.
+
+Lemma wstep_seen_from w o j sd : Inv12 (w_st w) -> no_delempty o = true -> nth_error (st_sides (w_st w)) j = Some sd ->
+  exists sd', nth_error (st_sides (w_st (fst (wstep w o)))) j = Some sd' /\
+    absf (st_heap (w_st (fst (wstep w o)))) sd'
+    = afinal (absf (st_heap (w_st w)) sd)
+             (filter (fun o' => touches o' j) (match (if plain o then weffect w o else None) with Some o' => [o'] | None => [] end)).
+Proof.
+  intros I Hn Hj. destruct (plain o) eqn:Hp.
+  - destruct (wstep_refines w o j sd I Hp Hj) as [sd' [Hj' E]]. exists sd'. split; [exact Hj'|]. rewrite E.
+    destruct (weffect w o) as [o'|]; [|reflexivity]. cbn [filter]. destruct (touches o' j); reflexivity.
+  - cbn [filter afinal fold_left]. destruct o as [o'|mech src root|s label ci|s label|s ci name v|s|s|s ci key cj]; try discriminate.
+    + (* WCopy *) cbn [wstep].
+      destruct (nth_side (st_sides (w_st w)) src) as [sds|] eqn:En;
+        [|exists sd; split; [unfold wcopy; rewrite En; exact Hj|unfold wcopy; rewrite En; reflexivity]].
+      destruct (model_of w src) as [m|] eqn:Em;
+        [|exists sd; split; [unfold wcopy; rewrite En, Em; exact Hj|unfold wcopy; rewrite En, Em; reflexivity]].
+      destruct (Nat.leb MAX_SIDES (length (st_sides (w_st w)))) eqn:Hm;
+        [exists sd; split; [unfold wcopy; rewrite En, Em, Hm; exact Hj|unfold wcopy; rewrite En, Em, Hm; reflexivity]|].
+      destruct (wcopy_refines w src root sds m I En Em Hm) as [_ Hold]. destruct (Hold j sd Hj) as [H1 H2].
+      exists sd. split; assumption.
+    + (* SForget *) cbn [wstep]. exists sd.
+      destruct (nth_side (st_sets (w_st w)) s); [|split; [exact Hj|reflexivity]].
+      destruct (nth (Z.to_nat s) (w_setpin w) true); split; try exact Hj; reflexivity.
+Qed.
+
+(* C19_world_refinement: along every world history without remove_property_layer("empty") - model copies, off-grid and
+   fixed agents, removals, user attributes, hand-made connections, forgets - the abstract state of side j is the abstract
+   machine of Model/Copy.v run on exactly the operations performed on side j *)
+Theorem world_side_history w ops j sd :
+  Inv12 (w_st w) -> forallb no_delempty ops = true -> nth_error (st_sides (w_st w)) j = Some sd ->
+  exists sd', nth_error (st_sides (w_st (wrun_states w ops))) j = Some sd' /\
+    absf (st_heap (w_st (wrun_states w ops))) sd'
+    = afinal (absf (st_heap (w_st w)) sd) (filter (fun o' => touches o' j) (weffects w ops)).
+Proof.
+  revert w sd; induction ops as [|o t IH]; intros w sd I Hall Hj; simpl.
+  - exists sd. split; [exact Hj|reflexivity].
+  - simpl in Hall. apply andb_true_iff in Hall. destruct Hall as [Ho Ht].
+    destruct (wstep_seen_from w o j sd I Ho Hj) as [sd1 [Hj1 E1]].
+    destruct (IH (fst (wstep w o)) sd1 (wstep_inv w o Ho I) Ht Hj1) as [sd' [Hj' E']].
+    exists sd'. split; [exact Hj'|]. rewrite E', E1. rewrite filter_app. unfold afinal. rewrite fold_left_app. reflexivity.
+Qed.
